@@ -89,6 +89,8 @@ def check_net(net, spec):
             else:
                 if sections != 1:
                     continue
+                if pf <= 0 or pt <= 0:
+                    continue          # converged to a negative absolute pressure (overloaded gas net; pandapipes warns): no physical state
                 pm = pf if np.isclose(pf, pt) else 2 / 3 * (pf ** 3 - pt ** 3) / (pf ** 2 - pt ** 2)
                 K = float(fluid.get_compressibility(pm, tm))
                 eta = float(fluid.get_viscosity(tm))
@@ -98,7 +100,7 @@ def check_net(net, spec):
                 rt = rho_n * TN * pt / (tout * PN * float(fluid.get_compressibility(pt, tout)))
                 resid = pf - pt + (rf + rt) / 2 * G * dh / 1e5 - loss
                 nf_exp = PN * tf * float(fluid.get_compressibility(pf, tf)) / (TN * pf)
-                if "normfactor_from" in r.columns and abs(r.at[idx, "normfactor_from"] - nf_exp) > 1e-8 * nf_exp:
+                if "normfactor_from" in r.columns and abs(r.at[idx, "normfactor_from"] - nf_exp) > 1e-8 * abs(nf_exp):
                     fail("C02:normfactor_from:%s" % tbl, "norm factor = pN T K/(TN p)", table=tbl, index=int(idx),
                          reported=r.at[idx, "normfactor_from"], expected=nf_exp)
                 if "v_from_m_per_s" in r.columns and abs(r.at[idx, "v_from_m_per_s"] - vn * nf_exp) > 1e-8 * (1 + abs(vn * nf_exp)):
